@@ -8,6 +8,8 @@
 //
 // Case terms (Coq, type vcase, see coq/C06/Harness.v):
 //   CPipe sig procs exps o_cap                    one pipeline, exporters only (exhaustive small vectors)
+//   CGraph sig tree o_arrivals o_finals           the consumer tree (TreeModel.v comp) with what every component
+//                                                 received (cell, read-only flag, markers) and finally holds
 //   CTree sig roots o_recv_cap o_caps             a tree; o_recv_cap = MutatesData of the consumer handed to
 //                                                 the receiver; o_caps = MutatesData advertised by every
 //                                                 pipeline's capabilitiesNode, pre-order
@@ -28,6 +30,7 @@ package graph
 import (
 	"context"
 	"fmt"
+	"sort"
 	"strings"
 	"testing"
 
@@ -57,6 +60,7 @@ import (
 
 // ---- the world of one case: what every component observed ------------------------------------------
 type vArr struct {
+	seq     int // position in the global delivery order
 	count   int
 	cell    int
 	ro      bool
@@ -71,6 +75,7 @@ type vWorldT struct {
 	recv     map[string]bool // receiver id -> MutatesData of the consumer it was given
 	push     map[string]func(context.Context) error
 	failures []string
+	seqN     int
 	// the caller's context: cancelled when component cancelAt is reached ("" = not during the run)
 	cancelAt string
 	cancel   func()
@@ -199,6 +204,10 @@ func vHandle(ctx context.Context, c *vComp, payload any, ro bool, attrs func() p
 		w.arr[c.id] = a
 	}
 	a.count++
+	if a.count == 1 {
+		a.seq = w.seqN
+		w.seqN++
+	}
 	a.cell = w.cellOf(payload)
 	a.ro = ro
 	// a payload that lost its (first) resource on the way makes attrs() panic: report it, do not crash
@@ -279,22 +288,38 @@ const vStab = component.StabilityLevelDevelopment
 var vRecvFactory = xreceiver.NewFactory(component.MustNewType("vrecv"), vCfg,
 	xreceiver.WithTraces(func(_ context.Context, set receiver.Settings, _ component.Config, n consumer.Traces) (receiver.Traces, error) {
 		vWorld.recv[set.ID.Name()] = n.Capabilities().MutatesData
-		vWorld.push[set.ID.Name()] = func(ctx context.Context) error { return n.ConsumeTraces(ctx, vGTraces(vWorld.payloadKind)) }
+		vWorld.push[set.ID.Name()] = func(ctx context.Context) error {
+			p := vGTraces(vWorld.payloadKind)
+			vWorld.cellOf(p) // the sent payload is cell 0
+			return n.ConsumeTraces(ctx, p)
+		}
 		return vNewComp(set.ID), nil
 	}, vStab),
 	xreceiver.WithMetrics(func(_ context.Context, set receiver.Settings, _ component.Config, n consumer.Metrics) (receiver.Metrics, error) {
 		vWorld.recv[set.ID.Name()] = n.Capabilities().MutatesData
-		vWorld.push[set.ID.Name()] = func(ctx context.Context) error { return n.ConsumeMetrics(ctx, vGMetrics(vWorld.payloadKind)) }
+		vWorld.push[set.ID.Name()] = func(ctx context.Context) error {
+			p := vGMetrics(vWorld.payloadKind)
+			vWorld.cellOf(p) // the sent payload is cell 0
+			return n.ConsumeMetrics(ctx, p)
+		}
 		return vNewComp(set.ID), nil
 	}, vStab),
 	xreceiver.WithLogs(func(_ context.Context, set receiver.Settings, _ component.Config, n consumer.Logs) (receiver.Logs, error) {
 		vWorld.recv[set.ID.Name()] = n.Capabilities().MutatesData
-		vWorld.push[set.ID.Name()] = func(ctx context.Context) error { return n.ConsumeLogs(ctx, vGLogs(vWorld.payloadKind)) }
+		vWorld.push[set.ID.Name()] = func(ctx context.Context) error {
+			p := vGLogs(vWorld.payloadKind)
+			vWorld.cellOf(p) // the sent payload is cell 0
+			return n.ConsumeLogs(ctx, p)
+		}
 		return vNewComp(set.ID), nil
 	}, vStab),
 	xreceiver.WithProfiles(func(_ context.Context, set receiver.Settings, _ component.Config, n xconsumer.Profiles) (xreceiver.Profiles, error) {
 		vWorld.recv[set.ID.Name()] = n.Capabilities().MutatesData
-		vWorld.push[set.ID.Name()] = func(ctx context.Context) error { return n.ConsumeProfiles(ctx, vGProfiles(vWorld.payloadKind)) }
+		vWorld.push[set.ID.Name()] = func(ctx context.Context) error {
+			p := vGProfiles(vWorld.payloadKind)
+			vWorld.cellOf(p) // the sent payload is cell 0
+			return n.ConsumeProfiles(ctx, p)
+		}
 		return vNewComp(set.ID), nil
 	}, vStab),
 )
@@ -566,13 +591,13 @@ func vRunTree(out *vOut, sig int, roots []*vPipeT, simple bool, ctxMode, ctxPick
 		for i, e := range p.exps {
 			ex[i] = vBool(e.mut)
 		}
-		term = fmt.Sprintf("CPipe %d %s %s %s", sig, vList(pr), vList(ex), caps[0])
+		term = fmt.Sprintf("(CPipe %d %s %s %s)", sig, vList(pr), vList(ex), caps[0])
 	} else {
 		rt := make([]string, len(roots))
 		for i, p := range roots {
 			rt[i] = vPipeTerm(p)
 		}
-		term = fmt.Sprintf("CTree %d %s %s %s", sig, vList(rt), vBool(recvCap), vList(caps))
+		term = fmt.Sprintf("(CTree %d %s %s %s)", sig, vList(rt), vBool(recvCap), vList(caps))
 	}
 
 	// ---- direct oracle 1: a pipeline advertises MutatesData iff a processor mutates or all exporters (as advertised) do
@@ -681,6 +706,91 @@ func vRunTree(out *vOut, sig int, roots []*vPipeT, simple bool, ctxMode, ctxPick
 			}
 		}
 	}
+	// ---- CGraph case: the consumer tree (fan-out children in observed delivery order) + what every
+	// component received and finally holds, compared with the store-passing tree model (TreeModel.v) ----
+	idOf := map[string]int{}
+	for i, name := range all {
+		idOf[name] = i + 1
+	}
+	seqOf := func(name string) int {
+		if a := w.arr[name]; a != nil && a.count > 0 {
+			return a.seq
+		}
+		return 1 << 30
+	}
+	var pipeSeq func(p *vPipeT) int
+	pipeSeq = func(p *vPipeT) int {
+		m := 1 << 30
+		for _, n := range p.procName {
+			if x := seqOf(n); x < m {
+				m = x
+			}
+		}
+		for _, e := range p.exps {
+			if x := seqOf(e.name); x < m {
+				m = x
+			}
+		}
+		return m
+	}
+	var pipeC func(p *vPipeT) string
+	nodeC := func(e *vNodeT) string {
+		if !e.conn {
+			return fmt.Sprintf("CExp %d %s", idOf[e.name], vBool(e.mut))
+		}
+		ns := append([]*vPipeT{}, e.nexts...)
+		sort.SliceStable(ns, func(i, j int) bool { return pipeSeq(ns[i]) < pipeSeq(ns[j]) })
+		it := make([]string, len(ns))
+		for i, n := range ns {
+			it[i] = pipeC(n)
+		}
+		return fmt.Sprintf("CConn %d %s (CFanout %s)", idOf[e.name], vBool(e.mut), vList(it))
+	}
+	pipeC = func(p *vPipeT) string {
+		es := append([]*vNodeT{}, p.exps...)
+		sort.SliceStable(es, func(i, j int) bool { return seqOf(es[i].name) < seqOf(es[j].name) })
+		it := make([]string, len(es))
+		for i, e := range es {
+			it[i] = nodeC(e)
+		}
+		t := "CFanout " + vList(it)
+		for k := len(p.procs) - 1; k >= 0; k-- {
+			t = fmt.Sprintf("CProc %d %s (%s)", idOf[p.procName[k]], vBool(p.procs[k]), t)
+		}
+		return "CCap (" + t + ")"
+	}
+	rs := append([]*vPipeT{}, roots...)
+	sort.SliceStable(rs, func(i, j int) bool { return pipeSeq(rs[i]) < pipeSeq(rs[j]) })
+	rt := make([]string, len(rs))
+	for i, p := range rs {
+		rt[i] = pipeC(p)
+	}
+	mkZ := func(ms []string) string {
+		it := make([]string, len(ms))
+		for i, m := range ms {
+			it[i] = fmt.Sprint(idOf[m]) // unknown marker -> 0
+		}
+		return "[" + strings.Join(it, ";") + "]%Z"
+	}
+	byseq := append([]string{}, all...)
+	sort.SliceStable(byseq, func(i, j int) bool { return seqOf(byseq[i]) < seqOf(byseq[j]) })
+	var arrT, finT []string
+	for _, name := range byseq {
+		a := w.arr[name]
+		if a == nil || a.count == 0 {
+			continue
+		}
+		ro := 0
+		if a.ro {
+			ro = 1
+		}
+		arrT = append(arrT, fmt.Sprintf("(%d,(%d,%s))", idOf[name], 2*a.cell+ro, mkZ(a.arrival)))
+		finT = append(finT, fmt.Sprintf("(%d,%s)", idOf[name], mkZ(a.final())))
+	}
+	gterm := fmt.Sprintf("(CGraph %d (CFanout %s) %s %s)", sig, vList(rt), vList(arrT), vList(finT))
+	out.Case(len(all) >= 2, gterm)
+	out.Stat("graph_tree_cases", 1)
+
 	seen := map[string]bool{}
 	for _, f := range w.failures {
 		p := strings.SplitN(f, "|", 2)
